@@ -465,6 +465,12 @@ pub fn initial_world(prop: &str, rng: Rng, case: u64) -> (World, Profile, usize)
         let v = if r2.chance(2, 3) { versions[0] } else { *r2.pick(&ALL_VERSIONS[6..]) };
         seed_model_small(&mut w, 1, &[v]);
     }
+    if matches!(prop, "C13" | "C10" | "C04" | "C05") && r2.chance(1, 3) {
+        // a model whose file sets come from merging loaded partial views (not from add_to_file); C13: duplicate() of it
+        if seed_model_loaded(&mut w, v0).is_some() && prop == "C13" {
+            w.pending_duplicate_of_last_model();
+        }
+    }
     w.refresh();
     let grow = if r2.chance(1, 2) { r2.range(20, 90) } else { 0 };
     (w, prof, grow)
